@@ -78,7 +78,14 @@ def battery():
         return dg(r["html"], deps_sig(tl.get_dependencies()), deps_sig(r["dependencies"]), s,
                   [x.as_dict() for x in tl.get_dependencies(dedup=False)])
 
-    return [("many_deps", many_deps), ("dup_head_content", dup_head_content), ("text_document", text_document),
+    def escapes():
+        # attribute values holding only quotes / newlines, text holding only & < >
+        t = Tag("div", {"title": 'say "hi"\n', "data-x": "it's"}, "a & b",
+                Tag("span", "<x>", title='q"'), Tag("p", 'plain "quoted" text', id="i\r"))
+        t2 = Tag("div", "x", class_=HTML("h")).add_class('k"')
+        return dg(str(t), str(t2), HTMLDocument(t).render()["html"], t.get_html_string(1, "\r\n"))
+
+    return [("escapes", escapes), ("many_deps", many_deps), ("dup_head_content", dup_head_content), ("text_document", text_document),
             ("jsx_component", jsx_component), ("attr_merges", attr_merges), ("resolution", resolution)]
 
 
@@ -134,10 +141,15 @@ def head_content_facts():
 
 def main():
     nperm = int(sys.argv[1])
+    first_action = int(sys.argv[2]) if len(sys.argv) > 2 else 0
     items = battery()
     first = {}
     order_dependent = []
     nexec = 0
+    # the very first library action of this process: battery item `first_action`
+    name0, f0 = items[first_action % len(items)]
+    first[name0] = f0()
+    nexec += 1
     head, tail = items[:nperm], items[nperm:]
     for perm in itertools.permutations(range(len(head))):
         order = [head[i] for i in perm] + tail
